@@ -81,6 +81,13 @@ class Gen:
             return {'v': 'node', 'i': r.choice(s.live_nodes())}
         if k < 0.95 and s.live_buses():
             return {'v': 'map', 'i': r.choice(s.live_buses())}
+        if k < 0.97:
+            # an accessor used after free: bus.as_map() of a freed bus (possibly one whose map symbol was rendered while it
+            # was allocated) must raise BusException -- the command is then never issued
+            fb = [i for i, u in enumerate(s.buses) if u['freed'] and not u.get('dead')]
+            if fb:
+                self.tags.add('as_map-after-free')
+                return {'v': 'map', 'i': r.choice(fb)}
         return self.num()
 
     def cvalue(self, depth=0):
@@ -156,7 +163,18 @@ class Gen:
             if r.random() < 0.7 else {'k': 'fn', 'addr': '/b_set', 'args': [vi(0), vf(Fraction(1, 2))]}
 
     # ---- ops ----------------------------------------------------------------------
+    def stale_map(self, v):
+        if isinstance(v, dict):
+            if v.get('v') == 'map' and self.s.buses[v['i']]['freed']:
+                return True
+            return any(self.stale_map(x) for x in v.values())
+        if isinstance(v, list):
+            return any(self.stale_map(x) for x in v)
+        return False
+
     def emit(self, op):
+        # the caller's as_map() raises before the library is called: the op has no effect at all
+        self.last_raises = self.stale_map(op.get('args'))
         if op['op'] in ('synth', 'n_set', 'n_setn', 'b_setn', 'bus_setn', 'b_sine1') and self.r.random() < 0.15:
             op = dict(op, then_mutate=True)      # the caller changes his own list / dict arguments after the call
             self.tags.add('args-mutated-after-call')
@@ -181,7 +199,7 @@ class Gen:
         else:
             op['target'] = self.target()
         self.emit(op)
-        if ctor != 'grain':
+        if ctor != 'grain' and not self.last_raises:
             if ctor == 'replace' and op['same_id']:
                 nid = s.nodes[op['target']['i']].get('id')
             else:
@@ -567,7 +585,15 @@ class Gen:
                 v = {'v': 'bus', 'i': r.choice(fu)}
             else:
                 return
-            self.emit({'op': 'n_set', 'n': r.choice(ln), 'args': [vs('bufnum'), v]})
+            o = r.choice(['n_set', 'n_set', 'n_setn', 'n_map', 'n_mapn', 'synth'])
+            if o == 'synth':
+                self.emit({'op': 'synth', 'ctor': 'init', 'def': 'default', 'args': vl([vs('bufnum'), v]), 'target': {'t': 'none'},
+                           'action': 0, 'same_id': False})
+                s.nodes.append({'kind': 's', 'id': s.next_id}); s.next_id += 1
+            elif o in ('n_map', 'n_mapn') and v['v'] != 'bus':
+                self.emit({'op': 'n_set', 'n': r.choice(ln), 'args': [vs('bufnum'), v]})
+            else:
+                self.emit({'op': o, 'n': r.choice(ln), 'args': [vs('bufnum'), v]})
         elif k == 'empty_bus_set':
             lc = s.live_buses(False)
             if lc:
